@@ -127,6 +127,31 @@ GEN_THOROUGH = GEN_QUICK + [
      3, [SAME, DIFF], [SIG_A, SIG_B], [8, 10, 13, 14, 15], 1),
 ]
 
+# static third-party RSA signatures (harness/vectors/rsa.json, produced once by
+# harness/vectors/make_rsa_vectors.py): algorithm x key size acceptance matrix {5, 7, 8, 10} x {1024, 2048}
+VECTORS = os.path.join(vlib.VERIF, "harness", "vectors", "rsa.json")
+RSAVEC = {"owner": "www.example.", "type": 1, "class": 1, "ttl": 3600, "rdata": [[192, 0, 2, 1], [192, 0, 2, 2]],
+          "labels": 2, "exp": 0x70000000, "inc": 0x60000000, "signer": "example."}
+
+
+def rsavec_gen(alg_tags):
+    """the generator entry for the fixed RRset of the vectors, one RRSIG parameter base per key tag"""
+    sigs = [{"ottl": u32(RSAVEC["ttl"]), "exp": u32(RSAVEC["exp"]), "inc": u32(RSAVEC["inc"]), "tag": t,
+             "signer": name("example")} for t in sorted({t for (_a, t) in alg_tags})]
+    return ("rsavec", RSAVEC["type"], RSAVEC["class"], [name("www", "example")], [rd(Bf(*r)) for r in RSAVEC["rdata"]], 2,
+            [ttlpat(3600, 3600, 3600, 3600)], sigs, sorted({a for (a, _t) in alg_tags}), 0)
+
+
+def rsavec_cases(wd, alg_tags):
+    (nm, typ, cls, owners, uni, maxlen, pats, sigs, algs, lup) = rsavec_gen(alg_tags)
+    defs = {"P_Type": str(typ), "P_Class": str(cls), "P_Owners": tla(set(tla(o) for o in owners)),
+            "P_Universe": tla(set(uni)), "P_TtlPats": tla(set(pats)), "P_SigBases": tla(set(tla(x) for x in sigs)),
+            "P_Algs": tla(set(algs))}
+    tla_p, cfg_p = vlib.wrapper(wd, "G_" + nm, "Gen_Canonical", defs, [l.format(maxlen=maxlen, lup=lup) for l in GEN_CFG])
+    cases, _st = vlib.gen(tla_p, cfg_p, wd, workers=4, timeout=600)
+    return cases
+
+
 GEN_CFG = ["SPECIFICATION Spec", "CONSTANTS", "  G_Type <- P_Type", "  G_Class <- P_Class", "  G_Owners <- P_Owners",
            "  G_Universe <- P_Universe", "  G_MaxLen = {maxlen}", "  G_TtlPats <- P_TtlPats", "  G_SigBases <- P_SigBases",
            "  G_Algs <- P_Algs", "  G_LabelsUpTo = {lup}", "INVARIANT Emit", "CHECK_DEADLOCK FALSE"]
@@ -275,7 +300,13 @@ def run(res, tier, seed):
     res.extra["asis_rule_counterexample"] = ("Invariant C05_" in out and "is violated" in out)
 
     # ---- R
-    gens = GEN_THOROUGH if thorough else GEN_QUICK
+    gens = list(GEN_THOROUGH if thorough else GEN_QUICK)
+    vec_args = []
+    if os.path.exists(VECTORS):
+        vecs = json.load(open(VECTORS))["vectors"]
+        gens.append(rsavec_gen([(v["alg"], v["tag"]) for v in vecs]))
+        vec_args = ["--vectors", VECTORS]
+    vector_checks = 0
     total = 0
     fail_cases = 0
     for (nm, typ, cls, owners, uni, maxlen, pats, sigs, algs, lup) in gens:
@@ -292,11 +323,12 @@ def run(res, tier, seed):
         cpath = os.path.join(wd, f"G_{nm}.cases.ndjson")
         vpath = os.path.join(wd, f"G_{nm}.verdicts.ndjson")
         vlib.write_ndjson(cpath, cases)
-        vlib.run_driver("drive_canonical", ["replay"], stdin_path=cpath, stdout_path=vpath, timeout=2400)
+        vlib.run_driver("drive_canonical", ["replay"] + vec_args, stdin_path=cpath, stdout_path=vpath, timeout=2400)
         n = 0
         for v, c in zip(vlib.read_ndjson(vpath), cases):
             n += 1
             res.evaluations += v["checks"]
+            vector_checks += v.get("vector_checks", 0)
             key = {"type": c["type"], "owner": c["owner"], "recs": c["recs"], "sig": c["sig"]}
             if v["nontrivial"]:
                 res.nontrivial.add(vlib.digest(key))
@@ -333,13 +365,19 @@ def run(res, tier, seed):
                     cls_, fields = form or zform
                     res.mismatch(cls_, dict(fields, check="self"), detail)
                 else:
-                    res.mismatch(f"{f['check']}-verify-differs", {"type": c["type"], "expected": str(f["expected"]),
-                                                                   "observed": str(f["observed"]), "form": "conforming"}, detail)
+                    fields = {"type": c["type"], "expected": str(f["expected"]), "observed": str(f["observed"]),
+                              "form": "conforming"}
+                    if f["check"] == "vector":
+                        fields.update(alg=c["sig"]["alg"], key_bits=f.get("bits"))
+                    res.mismatch(f"{f['check']}-verify-differs", fields, detail)
         if n != len(cases):
             raise vlib.ToolError("driver lost cases")
         total += n
         res.traces += n
     res.exhaustive = True
+    if vec_args and vector_checks == 0:
+        raise vlib.ToolError("vacuous binding: no case met a static RSA vector")
+    res.extra["static_rsa_vector_verifications"] = vector_checks
     res.extra["generated_cases_replayed"] = total
     res.extra["generated_cases_disagreeing"] = fail_cases
 
